@@ -92,6 +92,12 @@ class CliAdapter:
                     c.on(ev, wrap(on_simple(ns, ev, 'fn')), namespace=ns)
                 for ev in EVENTS:
                     c.on(ev, wrap(on_event(ns, ev, 'fn')), namespace=ns)
+                if self.cfg.get('also_class'):
+                    # the same namespace ALSO has a class-based handler
+                    # object (without methods: every event has a function)
+                    c.register_namespace((
+                        socketio.AsyncClientNamespace if self.is_async
+                        else socketio.ClientNamespace)(ns))
         else:
             base = socketio.AsyncClientNamespace if self.is_async \
                 else socketio.ClientNamespace
@@ -295,11 +301,19 @@ class CliAdapter:
             w.wait_script = make_script(0)
         try:
             c.connect('http://host', headers={'h': '1'}, auth=auth,
-                      transports=['polling'], namespaces=list(a['nss']),
+                      transports=['polling'],
+                      namespaces=self._nss(a),
                       wait=a['wait'], wait_timeout=1)
         finally:
             w.wait_script = None
         return ['ok']
+
+    def _nss(self, a):
+        if self.cfg.get('implicit'):
+            # the namespaces are left to the client: those of its handlers
+            assert list(a['nss']) == sorted(self.cfg['ns_h'])
+            return None
+        return list(a['nss'])
 
     def _connect_async(self, a, auth, batches):
         """AsyncClient.connect waits with asyncio.wait_for(event.wait(),
@@ -327,7 +341,7 @@ class CliAdapter:
             try:
                 await c.connect('http://host', headers={'h': '1'}, auth=auth,
                                 transports=['polling'],
-                                namespaces=list(a['nss']), wait=a['wait'],
+                                namespaces=me._nss(a), wait=a['wait'],
                                 wait_timeout=1)
             finally:
                 state['done'] = True
@@ -401,6 +415,17 @@ class CliAdapter:
             else:
                 buf.append(f)
         out += [self._pkt_tok(p) for p in refcodec.read_frames(buf)]
+        if self.cfg.get('implicit'):
+            # connect() without a namespace list: the namespaces of the
+            # registered handlers, a SET - the order of a run of CONNECT
+            # packets is not specified; the run is compared in sorted order
+            i = 0
+            while i < len(out):
+                j = i
+                while j < len(out) and out[j]['ty'] == 'CONNECT':
+                    j += 1
+                out[i:j] = sorted(out[i:j], key=lambda p: p['ns'])
+                i = j + 1
         for p in out:
             if p['ty'] == 'CONNECT' and p['ns'] not in self.srv_req:
                 self.srv_req.append(p['ns'])
@@ -465,7 +490,8 @@ class CliAdapter:
             'eio': c.eio.state,
             'connected': bool(c.connected),
             'namespaces': [[ns, str(sid)] for ns, sid in c.namespaces.items()],
-            'reqNs': list(c.connection_namespaces or []),
+            'reqNs': (sorted if self.cfg.get('implicit') else list)(
+                c.connection_namespaces or []),
             'cb': cb, 'binbuf': binbuf,
             'hasSid': c.sid is not None,
             'nextSid': self.next_sid,
